@@ -368,7 +368,7 @@ func (f *fx) read(path, hash string, size, off, limit int64) rdRes {
 			r.size, _ = strconv.ParseInt(cl, 10, 64)
 		}
 		if rec.Header().Get("Content-Encoding") == "zstd" {
-			d, err := vlib.ZstdDecodeAll(r.raw)
+			d, err := vlib.ZstdDecodeBoth(r.raw)
 			if err != nil {
 				r.err = errDecode
 				r.ok = false
@@ -401,7 +401,7 @@ func (f *fx) read(path, hash string, size, off, limit int64) rdRes {
 		}
 		r.raw = rr.Data
 		if rr.Compressor == pb.Compressor_ZSTD {
-			d, err := vlib.ZstdDecodeAll(rr.Data)
+			d, err := vlib.ZstdDecodeBoth(rr.Data)
 			if err != nil {
 				r.err = errDecode
 				r.ok = false
@@ -438,7 +438,7 @@ func (f *fx) read(path, hash string, size, off, limit int64) rdRes {
 		}
 		if path == "bs_zstd" {
 			if r.ok {
-				d, err := vlib.ZstdDecodeAll(r.raw)
+				d, err := vlib.ZstdDecodeBoth(r.raw)
 				if err != nil {
 					r.err = errDecode
 					r.ok = false
